@@ -179,4 +179,60 @@ example : outcome fixed 0 [.reply 1] = some false := by decide
 example : outcome fixed 0 [.junk, .reply 0] = some false := by decide
 example : outcome fixed 0 [.reply 0, .reply 0] = some true := by decide
 
+/-! ### muxer hand-over and UnregisterProtocol, step by step -/
+
+theorem mstep_inv (t t1 : MSt) (a : MAct) (hst : mstep t a = some t1) (hf : t.fixedMux = true)
+    (hc : t.closing = true ↔ 1 ≤ t.unreg) : t1.fixedMux = true ∧ (t1.closing = true ↔ 1 ≤ t1.unreg) := by
+  cases a <;> simp only [mstep] at hst <;> (repeat' split at hst) <;>
+    first
+    | (simp only [Option.some.injEq] at hst; subst hst; refine ⟨hf, ?_⟩; simp_all <;> omega)
+    | (simp only [Option.some.injEq] at hst; subst hst; refine ⟨hf, ?_⟩; simp_all)
+    | (simp at hst)
+
+/-- `closing` is signalled exactly when the repaired UnregisterProtocol has been called -/
+theorem closing_iff (acts : List MAct) : ∀ t t' : MSt, t.fixedMux = true → (t.closing = true ↔ 1 ≤ t.unreg) →
+    mrun t acts = some t' → t'.fixedMux = true ∧ (t'.closing = true ↔ 1 ≤ t'.unreg) := by
+  induction acts with
+  | nil => intro t t' hf hc h; simp [mrun] at h; subst h; exact ⟨hf, hc⟩
+  | cons a as ih =>
+    intro t t' hf hc h
+    unfold mrun at h
+    cases hst : mstep t a with
+    | none => simp [hst] at h
+    | some t1 =>
+      simp only [hst] at h
+      obtain ⟨h1, h2⟩ := mstep_inv t t1 a hst hf hc
+      exact ih t1 t' h1 h2 h
+
+/-- **`Protocol.Stop()` always gets through the muxer.** In every reachable state of the
+    repaired muxer in which UnregisterProtocol is waiting, it can complete at once, or the
+    blocked hand-over can let go at once and then it completes — whatever the peer sent and
+    whether or not anybody drains the channel. -/
+theorem unregister_completes (onWire : Nat) (acts : List MAct) (t : MSt)
+    (h : mrun (MSt.init true onWire) acts = some t) (hw : t.unreg = 1) :
+    (mstep t .finishUnreg).isSome = true ∨
+    ∃ t1, mstep t .wake = some t1 ∧ (mstep t1 .finishUnreg).isSome = true := by
+  obtain ⟨_, hc⟩ := closing_iff acts (MSt.init true onWire) t rfl (by simp [MSt.init]) h
+  have hcl : t.closing = true := hc.mpr (by omega)
+  by_cases hh : t.held = true
+  · right
+    refine ⟨{ t with held := false }, by simp [mstep, hh, hcl], by simp [mstep, hw]⟩
+  · left
+    simp [mstep, hw, hh]
+
+/-- the muxer before the repair: eleven surplus segments, then the protocol stops — the read
+    loop is parked holding the mutex, UnregisterProtocol waits for it, and **no** action is
+    enabled any more: Stop never returns and the peer's disconnect is never seen -/
+theorem old_muxer_deadlock_witness :
+    ∃ t, mrun (MSt.init false 11) (List.replicate 11 MAct.read ++ [.stop]) = some t ∧
+      t.unreg = 1 ∧ t.held = true ∧ t.eofSeen = false ∧
+      ∀ a, mstep t a = none := by
+  refine ⟨_, rfl, rfl, rfl, rfl, ?_⟩
+  intro a; cases a <;> decide
+
+/-- the same schedule with the repaired muxer: wake, then UnregisterProtocol completes and the
+    read loop goes back to the connection and sees the disconnect -/
+example : (mrun (MSt.init true 11) (List.replicate 11 MAct.read ++ [.stop, .wake, .finishUnreg, .eof])).map
+    (fun t => (t.unreg, t.held, t.eofSeen)) = some (2, false, true) := by decide
+
 end GV.Props.C15
